@@ -24,6 +24,8 @@ const MODS: &[Mod] = &[
       "export * from \"./a.ts\";\nexport const m: number = 1;\n",
       "export * from \"./a.ts\";\nexport const m = Math.random();\n",
       "export * from \"./a.ts\";\nexport { helper as renamed } from \"./h.ts\";\nexport type MT = string;\n",
+      // a star re-export of the dependency package: its modules are traced before the package itself comes up
+      "export * from \"jsr:@s/b@1\";\nexport * from \"./a.ts\";\nexport const m: number = 1;\n",
     ],
   },
   Mod {
@@ -61,6 +63,8 @@ const MODS: &[Mod] = &[
       "export interface BT { b: number }\n",
       "export interface BT { b: number }\nexport function bad() { return 1; }\n",
       "export interface BT { b: number; extra?: string }\n",
+      // more public API than a star re-export covers
+      "export interface BT { b: number }\nexport default class BD { x: number = 1; }\nexport const second: number = 2;\n",
     ],
   },
   // a second top-level package that leads to @s/b as well
